@@ -35,8 +35,9 @@ type GenParams struct {
 	big      bool
 	// LargeEvery: every LargeEvery-th history uses bodies beyond 64 KiB (the readers' large-record path), several per
 	// segment and per scan batch, of equal or decreasing size
-	LargeEvery int
-	EagerOneIn int // one in EagerOneIn (re)opens uses EagerVersionMigrate (default 5)
+	LargeEvery    int
+	EagerOneIn    int // one in EagerOneIn (re)opens uses EagerVersionMigrate (default 5)
+	AutoSyncOneIn int // one in AutoSyncOneIn (re)opens uses AutoSync (default 6)
 }
 
 var bigKeys = func() []string {
@@ -105,9 +106,16 @@ func (g *genState) drawOpts(first bool) *OptSpec {
 			o.Check, o.Recover = true, true
 		}
 	}
-	o.AutoSync = g.rng.Intn(6) == 0
+	asn := g.p.AutoSyncOneIn
+	if asn <= 0 {
+		asn = 6
+	}
+	o.AutoSync = g.rng.Intn(asn) == 0
 	if !first && g.rng.Intn(100) < g.p.ROPct {
 		o.RO = true
+	}
+	if first && g.p.ROPct > 0 && g.rng.Intn(12) == 0 {
+		o.RO = true // a read-only handle on a directory that has no log yet
 	}
 	return o
 }
